@@ -50,6 +50,14 @@ pub assume_specification<T: PartialOrd> [ <[T]>::is_sorted ] (s: &[T]) -> (r: bo
 pub assume_specification<T: PartialEq, A: core::alloc::Allocator> [ Vec::<T, A>::dedup ] (v: &mut Vec<T, A>)
     ensures final(v)@ == dedup_spec(old(v)@);
 
+/// std `slice::binary_search` on a slice sorted by `Ord`: `Ok(i)` names an equal element, `Err(_)` means
+/// there is none (std documentation; the position conventions are not needed here)
+pub assume_specification<T: Ord> [ <[T]>::binary_search ] (s: &[T], x: &T) -> (r: Result<usize, usize>)
+    requires forall|i: int, j: int| 0 <= i < j < s@.len() ==> (#[trigger] s@[i]).cmp_spec(#[trigger] &s@[j]) != Ordering::Greater,
+    ensures
+        r matches Ok(i) ==> i < s@.len() && s@[i as int].cmp_spec(x) == Ordering::Equal,
+        r matches Err(_) ==> forall|i: int| 0 <= i < s@.len() ==> (#[trigger] s@[i]).cmp_spec(x) != Ordering::Equal;
+
 /// derive(PartialEq, Eq, PartialOrd, Ord) on `struct Asn(u32)` is the order / equality of the
 /// wrapped u32.  Assumed here; proved on the compiled type by Kani harness asn_ord_is_u32.
 #[verifier::external_body]
@@ -169,6 +177,24 @@ impl SmallAsnSet {
             strictly_increasing(r.0@),
             r.0@.to_set() == iter@.to_set(),
     //@/spec
+    //@end
+}
+
+impl SmallAsnSet {
+    /// membership by binary search agrees with the set, given the data-structure invariant that from_iter
+    /// establishes (strictly increasing)
+    //@fn src/resources/asn.rs :: impl SmallAsnSet :: contains
+    //@spec
+        requires strictly_increasing(self.0@),
+        ensures r == self.0@.to_set().contains(asn),
+    //@/spec
+    //@ghost begin
+        proof {
+            broadcast use axiom_asn_derived_ord;
+            assert forall|i: int| 0 <= i < self.0@.len() implies ((#[trigger] self.0@[i]).cmp_spec(&asn) == Ordering::Equal) == (self.0@[i] == asn) by {}
+            assert(self.0@.to_set().contains(asn) == self.0@.contains(asn));
+        }
+    //@/ghost
     //@end
 }
 
